@@ -26,6 +26,10 @@ func classify(t *otree, f failure) string {
 	case t.flags.throughLink && (f.kind == "glob" || f.kind == "stat-literal" || f.kind == "alias-literal"):
 		// Members placed through a link are registered under the literal name.
 		return "literal-names"
+	case !t.flags.throughLink && f.kind == "alias-literal":
+		// No member was placed through a link, so every node is registered
+		// under its real path: the link's target is spelled through a link.
+		return "link-target-through-link"
 	case f.kind == "testfs-symlink-stat":
 		return "stat-symlink-lstat"
 	case f.kind == "sub-link":
@@ -344,6 +348,14 @@ func (x *runner) knownFindings() {
 		es, _ := sys.ReadDir("d")
 		if names(es) == "h" {
 			r.KnownSeen("dangling-hardlink-ghost", `{d/, b -> d, b/h hardlink to a missing name}: ReadDir("d") = [h]; the link cannot be created by an extraction and is removed only from the lookup table`)
+		}
+	}
+	// link-target-through-link
+	if sys := open([]member{sym("b/s1", "."), sym("b/e", "s1/b"), reg("b/b/f", "1")}); sys != nil {
+		es, err := fs.ReadDir(sys, "b/e")
+		_, err2 := fs.Stat(sys, "b/e/f")
+		if err == nil && names(es) == "f" && err2 != nil {
+			r.KnownSeen("link-target-through-link", `{b/s1 -> ., b/e -> s1/b, file b/b/f}: ReadDir("b/e") = [f] but Stat("b/e/f") does not exist: in directory position walkTo looks the stored target b/s1/b up in the table only, it is not a key because it is spelled through the link b/s1`)
 		}
 	}
 	// link-lexical
